@@ -155,6 +155,26 @@ def run_property(repo, prop, tier='quick', only=None):
 
 # ------------------------------------------------------------- known findings
 
+def share(ctx, prop, rules, keep=None):
+    """re-evaluate rules of another property inside a rule of this one (a shared rule): their obligations are reported under the
+    sharing rule as `<rule>:<construct>`; keep(observation) -> bool selects the obligations that matter here"""
+    from .model import Undecided
+    sub = run_property(ctx.repo, prop, ctx.tier, only=set(rules))
+    for e in sub.errors:
+        raise Undecided('shared rule %s: %s' % e)
+    n = 0
+    for o in sub.obs:
+        if keep is not None and not keep(o):
+            continue
+        n += 1
+        if o.status == 'ok':
+            ctx.ok('%s:%s' % (o.rule, o.construct), o.msg, o.where)
+        else:
+            ctx.bad('%s:%s' % (o.rule, o.construct), o.msg, o.where)
+    ctx.stats['functions'] |= sub.stats['functions']
+    return n
+
+
 def load_known(path=KNOWN):
     findings, fixed = {}, []
     if not os.path.exists(path):
